@@ -98,6 +98,12 @@ func runC20(c *Ctx) {
 			impl = &tl
 			view = func() []string { return append([]string{}, tl...) }
 			sp = &ordset{norm: asciiLowerTrim}
+		} else if kind == "cidr" {
+			// a source-network list is the same kind of set (lower-cased, trimmed entries)
+			var cl jwt.CIDRList
+			impl = &cl
+			view = func() []string { return append([]string{}, cl...) }
+			sp = &ordset{norm: asciiLowerTrim}
 		} else {
 			var sl jwt.StringList
 			impl = &sl
@@ -142,7 +148,7 @@ func runC20(c *Ctx) {
 			}
 			term := "(" + coqList(opsS) + ", " + coqStrList(v) + ", " + coqList(pr) + ")"
 			inp := map[string]interface{}{"list": kind, "history": ops}
-			if kind == "tag" {
+			if kind == "tag" || kind == "cidr" {
 				wt.add(term, inp)
 			} else {
 				ws.add(term, inp)
@@ -179,6 +185,24 @@ func runC20(c *Ctx) {
 	}
 	rec("tag", nil, maxTag)
 	rec("str", nil, maxStr)
+	rec("cidr", nil, maxStr)
+	// multi-argument steps on a source-network list (entries that differ by case and blanks only)
+	for i := 0; i < 300; i++ {
+		nalpha := []string{"10.0.0.0/8", " 10.0.0.0/8", "A:B::/32", "a:b::/32 ", "\tA:b::/32", "", "fe80::/10", "FE80::/10"}
+		var ops []lop
+		for j := 0; j < 2+c.Rng.Intn(6); j++ {
+			args := make([]string, 1+c.Rng.Intn(3))
+			for k := range args {
+				args[k] = nalpha[c.Rng.Intn(len(nalpha))]
+			}
+			kind := "add"
+			if c.Rng.Intn(5) < 2 {
+				kind = "remove"
+			}
+			ops = append(ops, lop{kind, args})
+		}
+		one("cidr", ops, i < 100)
+	}
 	c.sum.Exhaustive = true
 	// random long histories with multi-argument calls, observed after every step
 	nrand := 600
@@ -280,5 +304,5 @@ func runC20(c *Ctx) {
 	wstep.flush()
 	wc.flush()
 	c.sum.DistinctNontriv = len(distinct)
-	c.sum.Rule = fmt.Sprintf("all add/remove histories over the 7-string alphabet {a, A, ' a ', b, 'B ', '', c}: TagList up to length %d, StringList up to length %d (exhaustive), contents and 7 Contains probes; random histories of 5-40 multi-argument steps observed after every step; random source-network entry lists in both JSON forms; non-trivial = distinct history leaving a non-empty list / distinct multi-entry network list", maxTag, maxStr)
+	c.sum.Rule = fmt.Sprintf("all add/remove histories over the 7-string alphabet {a, A, ' a ', b, 'B ', '', c}: TagList up to length %d, StringList and CIDRList (Add/Remove/Contains as a lower-cased trimmed set) up to length %d (exhaustive), contents and 7 Contains probes; random histories of 5-40 multi-argument steps observed after every step; random source-network entry lists in both JSON forms; non-trivial = distinct history leaving a non-empty list / distinct multi-entry network list", maxTag, maxStr)
 }
